@@ -2,5 +2,5 @@ SPECIFICATION Spec
 CONSTANTS
   Kinds = {"dur"}
   Emit = TRUE
-INVARIANTS ValueTwoWays LeapSanity EmitReplay
+INVARIANTS ValueTwoWays LeapSanity TrailingZerosNeutral SubNanoInexact EmitReplay
 CHECK_DEADLOCK FALSE
